@@ -2,7 +2,20 @@ package props
 
 import (
 	"fmt"
+	"io/fs"
 	"time"
+)
+
+// Named types over the basic kinds: a type switch on int/string/bool does not
+// match them, reflection sees their underlying kind.
+type (
+	NamedBool   bool
+	NamedInt    int
+	NamedInt8   int8
+	NamedUint8  uint8
+	NamedUint64 uint64
+	NamedFloat  float64
+	NamedString string
 )
 
 // TV is a JSON-serialisable description of a Go value of a precise type, so
@@ -201,6 +214,26 @@ func (t TV) Go() any {
 		v := int(t.I)
 		pv := &v
 		return &pv
+	case "NamedBool":
+		return NamedBool(t.B)
+	case "NamedInt":
+		return NamedInt(t.I)
+	case "NamedInt8":
+		return NamedInt8(t.I)
+	case "NamedUint8":
+		return NamedUint8(t.U)
+	case "NamedUint64":
+		return NamedUint64(t.U)
+	case "NamedFloat":
+		return NamedFloat(t.F)
+	case "NamedString":
+		return NamedString(t.S)
+	case "FileMode":
+		return fs.FileMode(t.U)
+	case "Duration":
+		return time.Duration(t.I)
+	case "Month":
+		return time.Month(t.I)
 	case "time":
 		return time.Unix(t.I, 0).UTC()
 	case "chan":
@@ -262,6 +295,19 @@ func (t TV) Truthy() (truthy bool, decided bool) {
 		return t.S != "", true
 	case "nil*Item", "nilslice", "nilmap":
 		return false, false
+	// named types: a non-zero value is truthy under every reading; whether the
+	// zero value counts as "zero of a numeric type" / "the empty string" the
+	// documented table does not say
+	case "NamedBool":
+		return t.B, t.B
+	case "NamedInt", "NamedInt8", "Duration", "Month":
+		return t.I != 0, t.I != 0
+	case "NamedUint8", "NamedUint64", "FileMode":
+		return t.U != 0, t.U != 0
+	case "NamedFloat":
+		return t.F != 0, t.F != 0
+	case "NamedString":
+		return t.S != "", t.S != ""
 	}
 	return true, true
 }
@@ -278,6 +324,16 @@ func (t TV) String() string {
 		return fmt.Sprintf("%s(%v)", t.K, t.F)
 	case "string":
 		return fmt.Sprintf("string(%q)", t.S)
+	case "NamedBool":
+		return fmt.Sprintf("NamedBool(%v)", t.B)
+	case "NamedInt", "NamedInt8", "Duration", "Month":
+		return fmt.Sprintf("%s(%d)", t.K, t.I)
+	case "NamedUint8", "NamedUint64", "FileMode":
+		return fmt.Sprintf("%s(%d)", t.K, t.U)
+	case "NamedFloat":
+		return fmt.Sprintf("NamedFloat(%v)", t.F)
+	case "NamedString":
+		return fmt.Sprintf("NamedString(%q)", t.S)
 	}
 	return t.K
 }
